@@ -64,6 +64,43 @@ Round 4 (override gaps, aliasing / one-shot iterables, conventions, numeric edge
   refused (the `finally` branch).  Not reachable through the public API: the `analysis_period is None` arm of
   `Header.__copy__` (the constructor refuses None).
 
+Round 5 (a fourth campaign: free-form maintenance commits; two classes were reported by the broken tie only):
+
+* REPAIR: `check_history` skipped every step of every history since round 2 (the guard "the step refers to an
+  object that is not there" took the default reference 0 of a step without references for a reference to the
+  not yet existing object 0, so the first `new` step - and with it all later ones - was dropped).  The history
+  oracle (random histories, EPW one-object histories, the histories inside the process-order runs) is executed
+  now; only references a step really has are looked at.
+* class "an operation is generalised to a wider class of OPERAND PAIRS and loses argument hygiene on the new
+  pairs" (seen as: a + b / a - b bring b to a's unit in place): `_hetero_cases` - every call that takes two
+  collections (`+ - * /` base and continuous override, `compute_function_aligned`, `is_collection_aligned`,
+  `is_metadata_aligned`, `are_collections_aligned`, `are_metadatas_aligned`,
+  `pattern_from_collections_and_statement`, `==`, `filter_collections_by_statement`, `WindRose`, the `Wea`
+  constructor; op `queries` / `wea_init`) on pairs that differ in ONE respect: another unit of the same data
+  type (C / F / K, kWh / kBtu / Wh / MJ, W / kW / Btu/h, ...), another data type, the other mutability, other
+  metadata, another class, another period, another length; either operand on the left; answered or refused,
+  both operands read as before, then the usual edits on either side.  Statistics of one collection (op `stats`).
+  Random histories (correspondence and oracle) give the aligned sibling another unit in 45 % of the cases.
+  Lean: `C14_arith_operand_kept`, `C14_arith_ignores_operand_header`.
+* class "a derived COMPOSITE keeps a setting of its source by reference" (seen as: the Wea filters hand the
+  source's metadata dict to the new Wea): `check_composite` (op `composite`) - Wea source form (from_dict,
+  constructor with continuous / discontinuous collections) x past (own metadata keys and nested list, metadata
+  dict replaced, datetime convention switched, itself a duplicate / a filtered Wea) x deriving call (duplicate,
+  copy, filter_by_pattern / analysis_period (whole days, hour window) / hoys / moys / sun_up, global / direct
+  horizontal, directional, illuminance components, dictionary round trip) x in-place edit of the composite's
+  OWN settings (metadata key set / new key / nested append / del / clear / update / dict replaced,
+  enforce_on_hour, Location where the derivation copies it) or of a member collection x side; the other side is
+  read also through the collections it computes afterwards (their header metadata comes from the Wea's
+  metadata); the call asked again answers as the first time.  EPW x sky_temperature the same way.  Histories
+  that live around Wea objects (`gen_wea_focus_step`, kinds `wx` = deriving call by name, `wk` = settings edit
+  by name) in the oracle (all steps) and in the correspondence (modelled steps).  The sharing signature of a
+  new composite now says `D` when its metadata dict is the dict of a live composite (model `shareComp`).
+  Lean: `C14_fresh_comp_metadata_edit`, `C14_source_metadata_edit_after_fresh`,
+  `C14_wea_filter_metadata_separate`, `C14_wea_duplicate_metadata_separate`.
+* new finding of the unchanged tree: `EPW.sky_temperature` copies the EPW metadata one level deep
+  (fixes/C14_epw_sky_temperature_deepcopy.patch; known finding C14-epw-sky-temperature-nested-metadata until
+  it is committed; `sky_temperature_deep()` follows the source).
+
 History layer: every deriving step of a history may be asked AGAIN later (`again` marker): as long as the
 objects it read were not edited by a successful step, the new answer must equal the answer given the first
 time (whatever was done to the first answer meanwhile); a refused step must leave every object as it was.
@@ -108,7 +145,11 @@ RULE = ('correspondence: random histories (1-3 source collections of the 5 class
         'past (validated flag set, derived from derived, edited in place) for every operation and class, '
         'container types and one-shot iterables for every sequence argument, returned containers edited in '
         'place, periods made from text, reversed periods, sub-hourly aggregation, identity conversions, '
-        'counted branches; non-trivial = the step returned an object or edited one; distinct = distinct history '
+        'counted branches; round 5: every two-collection call on pairs that differ in one respect (unit of '
+        'the same data type, data type, mutability, metadata, class, period, length; either operand left), '
+        'composites (Wea source form x past x deriving call x edit of the own settings or a member x side; '
+        'EPW x sky_temperature), histories around Wea objects, aligned siblings in another unit; '
+        'non-trivial = the step returned an object or edited one; distinct = distinct history '
         'or (operation, class, mutability, mutator, side)')
 TRUSTED_BASE = [
     'hand model Model/Heap.lean of which cells each API operation allocates or aliases (tied by the '
@@ -420,6 +461,8 @@ def share_str_wea(live, w):
         s = '|'.join(_share_sig(m, o) for m in mem)
         if _kind(o) == 'wea' and _kind(w) == 'wea' and o.location is w.location:
             s += 'L'
+        if _kind(o) in ('wea', 'epw') and o.metadata is w.metadata:
+            s += 'D'                # round 5: the composite's own metadata dict is another composite's dict
         if not _only_seps(s):
             parts.append('%d:%s' % (j, s))
     return 'share=%s int=%s' % (','.join(parts), _share_coll(mem[0], mem[1]))
@@ -636,6 +679,45 @@ def apply_derive(live, on, op, a):
         a['_dict'] = d
         a['_dict_before'] = copy.deepcopy(d)
         return [type(c).from_dict(d)]
+    if op == 'queries':
+        # round 5: every public call that takes a second collection and returns no collection; each is
+        # made on its own (a refusal of one does not keep the others from being made)
+        other = live[a['c']]
+        calls = (lambda: c.is_collection_aligned(other), lambda: c.is_metadata_aligned(other),
+                 lambda: other.is_collection_aligned(c),
+                 lambda: BaseCollection.are_collections_aligned([c, other], False),
+                 lambda: BaseCollection.are_collections_aligned([c, other], True),
+                 lambda: BaseCollection.are_metadatas_aligned([c, other], False),
+                 lambda: BaseCollection.pattern_from_collections_and_statement([c, other], 'a > 0 or b > 0'),
+                 lambda: c == other, lambda: c != other)
+        for f in calls:
+            try:
+                f()
+            except Exception:
+                pass
+        return []
+    if op == 'stats':
+        # round 5: statistics of one collection (no collection comes back)
+        calls = (lambda: c.min, lambda: c.max, lambda: c.bounds, lambda: c.average, lambda: c.median,
+                 lambda: c.total, lambda: c.percentile(50), lambda: c.highest_values(2),
+                 lambda: c.lowest_values(2), lambda: c.is_in_data_type_range(False), lambda: repr(c),
+                 lambda: len(c), lambda: list(c), lambda: c.datetime_strings, lambda: c.average_monthly,
+                 lambda: BaseCollection.histogram(c.values, [-1e9, 0, 1e9]))
+        for f in calls:
+            try:
+                r = f()
+                if callable(r):
+                    r()
+            except Exception:
+                pass
+        return []
+    if op == 'wea_init':
+        # round 5: two collections handed to the Wea constructor (the Wea keeps them: nothing to edit
+        # afterwards; the call itself must leave them as they are, accepted or refused)
+        from ladybug.wea import Wea
+        from ladybug.location import Location
+        Wea(Location('Town', 'ST', 'Land', 40.0, -70.0, -5.0, 10.0, source='src'), c, live[a['c']])
+        return []
     raise ValueError('unknown derive op ' + op)
 
 
@@ -1091,6 +1173,15 @@ def sky_temperature_repaired():
     return e.sky_temperature.header.metadata is not e.metadata
 
 
+def sky_temperature_deep():
+    """Does EPW.sky_temperature copy nested metadata values too?  (Proposed repair
+    fixes/C14_epw_sky_temperature_deepcopy.patch; the model's `epwSky` describes the deep copy.)"""
+    from ladybug.epw import EPW
+    e = EPW.from_missing_values()
+    e.metadata['probe'] = [1]
+    return e.sky_temperature.header.metadata['probe'] is not e.metadata['probe']
+
+
 def exec_step(live, st):
     """Execute one plain step on the real objects (appending new live objects).
     Returns a list of (status text, model command) – one per model command – or None when the step is
@@ -1162,6 +1253,8 @@ def exec_step(live, st):
         try:
             if st['op'] == 'filter_pattern':
                 w = w0.filter_by_pattern(a['mask'])
+            elif st['op'] == 'filter_keys' and a.get('hoys'):
+                w = w0.filter_by_hoys([k / 60.0 for k in a['keys']])
             elif st['op'] == 'filter_keys':
                 w = w0.filter_by_moys(a['keys'])
             else:
@@ -1253,6 +1346,21 @@ def exec_step(live, st):
         except Exception as e:
             status = 'err:' + err_name(e)
         return [(status, 'wm %d %d %s' % (st['on'], st['mk'], cmd_mutator(0, st['op'], a).split(' ', 2)[2]))]
+    if k == 'wx':               # oracle only: a deriving call on a Wea that the model does not have, by name
+        try:
+            res = _comp_derive(live[st['on']], st['call'])
+        except Exception as ex:
+            return [('err:' + err_name(ex), '')]
+        n0 = len(live)
+        live.extend(res)
+        return [('ok %d' % n0, '')]
+    if k == 'wk':               # oracle only: an in-place edit of a Wea's own settings, by name
+        try:
+            _comp_edit(live[st['on']], st['name'], st['token'])
+            status = 'ok'
+        except Exception as ex:
+            status = 'err:' + err_name(ex)
+        return [(status, '')]
     if k == 'ws':
         live[st['on']].metadata[st['key']] = st['v']
         return [('ok', 'ws %d %d %s' % (st['on'], MKEYS[st['key']], _mv(st['v'])))]
@@ -1345,6 +1453,64 @@ def gen_wea_step(rng, infos, malformed, alias_ok):
             a['m'] = rng.choice([{}, {'k1': [9]}])
         return {'k': 'wm', 'on': on, 'mk': rng.randrange(2), 'op': op, 'args': a}
     return {'k': 'ws', 'on': on, 'key': rng.choice(['city', 'k1']), 'v': rng.choice(['X', 3])}
+
+
+WEA_SETTING_EDITS = ['meta_key', 'meta_new_key', 'meta_nested', 'meta_update', 'meta_replace', 'meta_clear',
+                     'meta_del', 'enforce']
+WEA_X_DERIVES = ['filter_sun_up', 'copy', 'dict', 'illuminance']
+
+
+def gen_wea_focus_step(rng, infos, malformed, modelled, nstep):
+    """Round 5: one step of a history that lives around Wea objects: derive (duplicate, every filter, the
+    computed collections, copy / dictionary round trip / illuminance), then edit the SETTINGS of either Wea
+    (metadata key / nested value / whole dict, datetime convention) or one of the collections."""
+    weas = [j for j, o in enumerate(infos) if o['kind'] == 'wea']
+    colls = [j for j, o in enumerate(infos) if o['kind'] == 'coll']
+    r = rng.random()
+    if not weas or r < 0.05:
+        return gen_wea_step(rng, [], malformed, False)
+    on = rng.choice(weas[-3:]) if rng.random() < 0.7 else rng.choice(weas)
+    me = infos[on]
+    if r < 0.36:
+        q = rng.random()
+        if q < 0.2:
+            return {'k': 'wd', 'on': on}
+        if q < 0.75 or modelled:
+            op = rng.choice(['filter_pattern', 'filter_keys', 'filter_ap'])
+            if op == 'filter_ap' and me['ap'][6] != 1:
+                op = 'filter_keys'
+            if op == 'filter_pattern':
+                a = {'mask': [True] + [rng.random() < 0.6 for _ in range(rng.choice([1, 2, me['n'] - 1]))]
+                     if not malformed else []}
+            elif op == 'filter_keys':
+                a = {'keys': sorted(rng.sample(me['dts'], rng.randint(1, min(6, me['n']))))}
+                if rng.random() < 0.4:
+                    a['hoys'] = True
+            else:
+                ap = list(me['ap'])
+                n1 = rng.randint(ap[1], ap[4])
+                ap[1], ap[4] = n1, rng.randint(n1, ap[4])
+                a = {'ap': ap}
+            return {'k': 'wf', 'on': on, 'op': op, 'args': a}
+        return {'k': 'wx', 'on': on, 'call': rng.choice(WEA_X_DERIVES)}
+    if r < 0.5:
+        return {'k': 'wr', 'on': on, 'what': rng.choice(['ghi', 'dhi', 'dir'])}
+    if r < 0.8:
+        if modelled or rng.random() < 0.3:
+            return {'k': 'ws', 'on': on, 'key': rng.choice(['city', 'k1', 'source']), 'v': rng.choice(['X', 3, 'Y%d' % nstep])}
+        return {'k': 'wk', 'on': on, 'name': rng.choice(WEA_SETTING_EDITS), 'token': 'h%d' % nstep}
+    if r < 0.9 or not colls:
+        op = rng.choice(['set_values', 'set_item', 'meta_set', 'meta_replace'])
+        a = {'v': [rng.randint(50, 99) for _ in range(me['n'] + (1 if malformed else 0))],
+             'i': rng.randrange(-me['n'], me['n']) if not malformed else me['n'] + 3, 'x': rng.choice([99, 0.5]),
+             'k': rng.choice(['k1', 'source', 'k3']), 'm': rng.choice([{}, {'k1': [9]}])}
+        a = dict((k, v) for k, v in a.items() if k in {'set_values': 'v', 'set_item': 'ix', 'meta_set': 'kv',
+                                                      'meta_replace': 'm'}[op])
+        if op == 'meta_set':
+            a['v'] = rng.choice([42, 'edited', [5, 6]])
+        return {'k': 'wm', 'on': on, 'mk': rng.randrange(2), 'op': op, 'args': a}
+    on2, op, a = gen_mutator(rng, infos, malformed)
+    return {'k': 'm', 'on': on2, 'op': op, 'args': a}
 
 
 def gen_step(rng, infos, malformed, alias_ok=False):
@@ -1489,17 +1655,25 @@ def run_steps(steps, ctx=None):
     return 'H fixed ; ' + ' ; '.join(cmds), ' | '.join(trace), kept
 
 
-def run_history(rng, ctx=None, max_steps=8):
+def run_history(rng, ctx=None, max_steps=8, wea_focus=False, modelled=True):
     """Generate one history while executing it on the real objects.
-    Returns (model request line, implementation trace in the driver's format, plain history)."""
-    nsrc = rng.choice([1, 2, 2, 3])
-    specs = [gen_spec(rng)]
+    Returns (model request line, implementation trace in the driver's format, plain history).
+    wea_focus (round 5): the history lives around Wea objects (`gen_wea_focus_step`); `modelled` False
+    admits the steps the model does not have (oracle only)."""
+    nsrc = rng.choice([1, 2, 2, 3]) if not wea_focus else 0
+    specs = [gen_spec(rng)] if not wea_focus else []
     for _ in range(nsrc - 1):
         if rng.random() < 0.6:      # a sibling aligned with the first one (for arithmetic / windrose / cfa)
             s = copy.deepcopy(specs[0])
             s['vals'] = [rng.randint(1, 30) for _ in s['vals']]
             s['mutable'] = rng.random() < 0.5
             s['meta'] = rng.choice([{}, {'k1': 3}, {'k2': [4]}])
+            if s.get('dtype', 'Temperature') == 'Temperature' and rng.random() < 0.45:
+                # round 5: an aligned sibling in ANOTHER unit of the same data type (operand pairs that
+                # are not alike: a + b, a - b, compute_function_aligned, WindRose .. leave both as they are)
+                s['unit'] = rng.choice([u for u in ('C', 'F', 'K') if u != s['unit']])
+                if ctx:
+                    ctx.count('sources:sibling-in-another-unit')
             specs.append(s)
         else:
             specs.append(gen_spec(rng))
@@ -1530,11 +1704,19 @@ def run_history(rng, ctx=None, max_steps=8):
 
     for s in specs:
         do({'k': 'new', 'spec': s})
-    nsteps = rng.randint(1, max_steps)
-    for _ in range(nsteps):
+    if wea_focus:
+        do(gen_wea_step(rng, [], False, False))
+        if rng.random() < 0.5:      # a source with a past: own keys / a nested list in its metadata
+            do({'k': 'ws', 'on': 0, 'key': 'k1', 'v': 'own'})
+            if not modelled:
+                do({'k': 'wk', 'on': 0, 'name': 'meta_update', 'token': 'past'})
+    nsteps = rng.randint(1, max_steps) if not wea_focus else rng.randint(3, max_steps + 2)
+    for istep in range(nsteps):
         malformed = rng.random() < 0.1
         infos = [_info(c, live) for c in live]
-        if derived and rng.random() < 0.12:
+        if wea_focus and not (derived and rng.random() < 0.15):
+            st = gen_wea_focus_step(rng, infos, malformed and rng.random() < 0.5, modelled, istep)
+        elif derived and rng.random() < (0.12 if not wea_focus else 1.0):
             # the same question once more (same object, same arguments), whatever happened meanwhile
             pos = rng.choice(derived)
             st = dict(copy.deepcopy(kept[pos]), again=kept[pos].get('again', pos))
@@ -1547,7 +1729,7 @@ def run_history(rng, ctx=None, max_steps=8):
         do(st)
     if ctx:
         ctx.count('history_len:%d' % nsteps)
-        ctx.count('sources:%d' % nsrc)
+        ctx.count('sources:%d' % nsrc if not wea_focus else 'histories:wea-centred')
     return 'H fixed ; ' + ' ; '.join(cmds), ' | '.join(trace), {'steps': kept}
 
 
@@ -1667,6 +1849,11 @@ def _correspondence(ctx):
     n = ctx.n(1500, 30000)
     for _ in range(n):
         line, tr, h = run_history(rng, ctx)
+        lines.append(line)
+        traces.append(tr)
+        hists.append(h)
+    for _ in range(ctx.n(200, 2500)):       # round 5: histories around Wea objects (modelled steps only)
+        line, tr, h = run_history(rng, ctx, wea_focus=True, modelled=True)
         lines.append(line)
         traces.append(tr)
         hists.append(h)
@@ -1911,8 +2098,8 @@ def _fresh_twin(c):
     return t
 
 
-DERIVE_KINDS = ('d', 'wd', 'wf', 'wr', 'es')
-EDIT_KINDS = ('m', 'lm', 'wm', 'ws', 'ec')
+DERIVE_KINDS = ('d', 'wd', 'wf', 'wr', 'es', 'wx')
+EDIT_KINDS = ('m', 'lm', 'wm', 'ws', 'ec', 'wk')
 SNAP_NAMES = ('class', 'values', 'unit', 'data_type', 'period', 'metadata', 'datetimes', 'validated',
               'values_type')
 
@@ -1954,11 +2141,14 @@ def check_history(inp):
     version = []                 # per live object: number of successful in-place edits
     asked = {}                   # position -> (reads, versions then, snapshots of the answers at birth)
     for n, st in enumerate(inp['steps']):
-        refs = [st.get('on', 0), st.get('vr') or 0, st.get('i', 0) if st['k'] in ('na', 'wi') else 0,
-                st.get('c', 0) if st['k'] == 'na' else 0, st.get('j', 0) if st['k'] == 'wi' else 0]
-        a = st.get('args', {})
-        refs += [a.get(x, 0) or 0 for x in ('c', 'j', 'r', 'args')]
-        if any(isinstance(r, int) and r >= len(live) for r in refs):
+        # (round 5: only the references the step really has - a default of 0 made the first step of every
+        # history count as "refers to an object that is not there", so no step was ever executed)
+        refs = [st[x] for x in ('on', 'vr') if st.get(x) is not None]
+        if st['k'] in ('na', 'wi'):
+            refs += [st[x] for x in ('i', 'c', 'j') if st.get(x) is not None]
+        a = st.get('args') or {}
+        refs += [a[x] for x in ('c', 'j', 'r', 'args') if isinstance(a.get(x), int) and not isinstance(a.get(x), bool)]
+        if any(not isinstance(r, int) or r >= len(live) or r < 0 for r in refs):
             continue            # an earlier step did not produce its object (changed implementation)
         before = [snapshot(o) for o in live]
         n0 = len(live)
@@ -2628,7 +2818,290 @@ def check_returned(inp):
     return None
 
 
+# --- round 5: composite objects (Wea, EPW) as BOTH sides of derive-then-edit (class "a derived composite keeps a
+# setting of its source by reference")
+
+COMP_SOURCES = ['dict', 'ctor_hc', 'ctor_hd']
+COMP_PASTS = [[], ['meta'], ['meta', 'enforce'], ['meta', 'via_duplicate'], ['meta', 'via_filter'],
+              ['via_filter', 'meta'], ['meta_replace'], ['meta', 'via_filter_ap']]
+COMP_DERIVES = ['duplicate', 'copy', 'filter_pattern', 'filter_ap', 'filter_hoys', 'filter_moys', 'filter_sun_up',
+                'ghi', 'dhi', 'directional', 'illuminance', 'dict']
+COMP_MUTATORS = ['meta_key', 'meta_new_key', 'meta_nested', 'meta_del', 'meta_clear', 'meta_update', 'meta_replace',
+                 'member0:set_item', 'member1:set_values', 'member0:meta_set', 'member1:meta_append',
+                 'member0:conv_ip', 'member1:meta_replace', 'enforce', 'location']
+COLL_MUTATORS = ['set_item', 'set_values', 'meta_set', 'meta_append', 'meta_replace', 'conv_ip', 'meta_clear']
+LOCATION_COPIED = ('duplicate', 'copy', 'dict')
+
+
+def _irr_coll(cls, which, vals, dts, ap):
+    from ladybug.header import Header
+    from ladybug.datatype.energyflux import DirectNormalIrradiance, DiffuseHorizontalIrradiance
+    from ladybug import datacollection as dc
+    hdr = Header(DirectNormalIrradiance() if which == 0 else DiffuseHorizontalIrradiance(), 'W/m2', _mk_ap(ap), {})
+    if cls == 'hc':
+        return dc.HourlyContinuousCollection(hdr, list(vals))
+    return dc.HourlyDiscontinuousCollection(hdr, list(vals), [_dt_from_token('hd', t) for t in dts])
+
+
+def _comp_source(inp):
+    """A Wea (or EPW) from plain numbers, with the past the case names."""
+    from ladybug.wea import Wea
+    from ladybug.location import Location
+    kind = inp['src']
+    if kind == 'epw':
+        from ladybug.epw import EPW
+        e = EPW.from_missing_values()
+        e.horizontal_infrared_radiation_intensity.values = [300 + (i % 40) for i in range(8760)]
+        e.metadata['source'] = 'station'
+        e.metadata['k2'] = [1, 2]
+        if 'ip' in inp.get('past', ()):
+            e.convert_to_ip()
+        return e
+    if kind == 'dict':
+        w = _wea()
+    else:
+        cls = 'hc' if kind == 'ctor_hc' else 'hd'
+        ap = [1, 1, 0, 1, 2, 23, 1, 0]
+        dts = [d * 1440 + h * 60 for d in range(2) for h in range(24)]
+        if cls == 'hd':
+            dts = [t for i, t in enumerate(dts) if i % 3 != 1]
+        dni = [float(i * 37 % 500) for i in range(len(dts))]
+        dhi = [float(i * 11 % 90) for i in range(len(dts))]
+        w = Wea(Location('City', 'ST', 'Country', 40.0, -70.0, -5.0, 10.0, source='src'),
+                _irr_coll(cls, 0, dni, dts, ap), _irr_coll(cls, 1, dhi, dts, ap))
+    for p in inp.get('past', ()):
+        if p == 'meta':
+            w.metadata['k1'] = 1
+            w.metadata['k2'] = [1, 2]
+        elif p == 'meta_replace':
+            w.metadata = {'k1': 'own', 'k2': [3], 'city': 'Replaced'}
+        elif p == 'enforce':
+            w.enforce_on_hour = True
+        elif p == 'via_duplicate':
+            w = w.duplicate()
+        elif p == 'via_filter':
+            w = w.filter_by_pattern([True])
+        elif p == 'via_filter_ap':
+            w = w.filter_by_analysis_period(_mk_ap([1, 1, 0, 1, 2, 23, 1, 0]))
+    return w
+
+
+def _comp_derive(w, name):
+    """One deriving call on a composite -> list of the new objects."""
+    from ladybug.wea import Wea
+    if name == 'sky_temperature':
+        return [w.sky_temperature]
+    if name == 'duplicate':
+        return [w.duplicate()]
+    if name == 'copy':
+        return [copy.copy(w)]
+    if name == 'filter_pattern':
+        return [w.filter_by_pattern([True, False, True, True])]
+    if name == 'filter_ap':
+        return [w.filter_by_analysis_period(_mk_ap([1, 1, 0, 1, 1, 23, 1, 0]))]
+    if name == 'filter_ap_window':
+        return [w.filter_by_analysis_period(_mk_ap([1, 1, 8, 1, 2, 17, 1, 0]))]
+    if name == 'filter_hoys':
+        return [w.filter_by_hoys([0, 2, 12, 27])]
+    if name == 'filter_moys':
+        return [w.filter_by_moys([0, 120, 720, 1620])]
+    if name == 'filter_sun_up':
+        return [w.filter_by_sun_up()]
+    if name == 'ghi':
+        return [w.global_horizontal_irradiance]
+    if name == 'dhi':
+        return [w.direct_horizontal_irradiance]
+    if name == 'directional':
+        return list(w.directional_irradiance(45, 180))
+    if name == 'illuminance':
+        d = w.direct_normal_irradiance
+        from ladybug.header import Header
+        hdr = Header(_dtype(), 'C', _mk_ap(_ap_tokens(d.header.analysis_period)), {})
+        dew = type(d)(hdr, [5.0] * len(d.values)) if CLS[d._collection_type] == 'hc' else \
+            type(d)(hdr, [5.0] * len(d.values), list(d.datetimes))
+        return list(w.estimate_illuminance_components(dew))
+    if name == 'dict':
+        return [Wea.from_dict(w.to_dict())]
+    raise ValueError(name)
+
+
+def _comp_snap(x, views=True):
+    """Everything the property lists, of a composite or a collection; for a Wea also what it reports through
+    the collections it computes (their header metadata comes from the Wea's own metadata)."""
+    kind = _kind(x)
+    if kind == 'coll':
+        return snapshot(x)
+    if kind == 'epw':
+        return (snapshot(x.dry_bulb_temperature), snapshot(x.horizontal_infrared_radiation_intensity), x.is_ip,
+                json.dumps(x.metadata, sort_keys=True, default=str))
+    out = (_wea_snap(x), x.enforce_on_hour, tuple(str(d) for d in x.datetimes))
+    if views:
+        out += (snapshot(x.global_horizontal_irradiance), snapshot(x.direct_horizontal_irradiance))
+    return out
+
+
+def _comp_edit(x, name, token):
+    """One in-place edit of a composite (its own settings or one of its collections) or of a collection."""
+    if _kind(x) == 'coll':
+        a = {'set_item': {'i': 0, 'x': 999}, 'set_values': {'v': [1000 + i for i in range(len(x.values))]},
+             'meta_set': {'k': 'k1', 'v': token}, 'meta_append': {'k': 'k2', 'x': token},
+             'meta_replace': {'m': {'other': token}}}.get(name)
+        if name == 'conv_ip':
+            x.convert_to_ip()
+        elif name == 'meta_clear':
+            x.header.metadata.clear()
+        else:
+            apply_mutator(x, name, a)
+        return
+    if name.startswith('member'):
+        return _comp_edit(_members(x)[int(name[6])], name.split(':')[1], token)
+    if name == 'meta_key':
+        x.metadata['city' if 'city' in x.metadata else 'source'] = token
+    elif name == 'meta_new_key':
+        x.metadata['znew'] = token
+    elif name == 'meta_nested':
+        keys = sorted(k for k, v in x.metadata.items() if isinstance(v, list))
+        x.metadata[keys[0]].append(token)       # (no list-valued key: refused with IndexError, nothing edited)
+    elif name == 'meta_del':
+        del x.metadata[sorted(x.metadata)[0]]
+    elif name == 'meta_clear':
+        x.metadata.clear()
+    elif name == 'meta_update':
+        x.metadata.update({'k1': token, 'more': [token]})
+    elif name == 'meta_replace':
+        x.metadata = {'other': token}
+    elif name == 'enforce':
+        x.enforce_on_hour = not x.enforce_on_hour
+    elif name == 'location':
+        x.location.city = token
+        x.location.latitude = 12.5
+    else:
+        raise ValueError(name)
+
+
+def check_composite(inp):
+    """A composite (Wea; EPW for sky_temperature) with a past -> one deriving call -> one in-place edit of
+    either side, the composite's own settings included (metadata key / nested value / whole dict, datetime
+    convention, member collections): the source reads as before the call; after the edit every other object
+    reads as before, also through the collections a Wea computes afterwards; the same call asked again of
+    the untouched source answers as the first time."""
+    name = inp['derive']
+    sig = {'what': 'composite', 'src': inp['src'], 'derive': name}
+    views = inp.get('views', True)
+
+    def fresh():
+        w = _comp_source(inp)
+        return w, _comp_derive(w, name)
+
+    w = _comp_source(inp)
+    before = _comp_snap(w, views)
+    try:
+        res = _comp_derive(w, name)
+    except Exception as e:
+        res = None
+        failed = type(e).__name__
+    if _comp_snap(w, views) != before:
+        return {'required': 'source unchanged by %s%s' % (name, '' if res is not None else ' (refused: %s)' % failed),
+                'observed': 'changed', 'sig': dict(sig, side='args')}
+    if res is None:
+        return None
+    for r in res:
+        if r is w or any(r is m for m in _members(w)):
+            return {'required': '%s returns new objects' % name, 'observed': 'the source / a member of it',
+                    'sig': dict(sig, side='result-is-source')}
+    birth = [_comp_snap(r, views) for r in res]
+    muts = inp.get('mutators')
+    _EDIT_COUNTER[0] += 1
+    token = 'edit#%d' % _EDIT_COUNTER[0]
+    targets = [('source', 0)] + [('result', i) for i in range(len(res))]
+    for side, idx in targets:
+        tk = 'coll' if side == 'result' and _kind(res[idx]) == 'coll' else 'comp'
+        names = COLL_MUTATORS if tk == 'coll' else COMP_MUTATORS
+        for m in names:
+            if muts is not None and m not in muts:
+                continue
+            if m == 'location' and (name not in LOCATION_COPIED or inp['src'] == 'epw'):
+                continue            # (a filtered Wea looks at the Location object of its source, by design)
+            if inp['src'] == 'epw' and tk == 'comp' and (m == 'enforce' or m.startswith('member1')):
+                continue
+            w, res = fresh()
+            target = w if side == 'source' else res[idx]
+            others = [('source', 0, w)] + [('result', i, r) for i, r in enumerate(res)]
+            others = [t for t in others if t[2] is not target]
+            snaps = [_comp_snap(o, views) for _, _, o in others]
+            try:
+                _comp_edit(target, m, token)
+                outcome = 'ok'
+            except Exception as e:
+                outcome = 'raises ' + type(e).__name__
+            for (oside, oi, o), s0 in zip(others, snaps):
+                if _comp_snap(o, views) != s0:
+                    s1 = _comp_snap(o, views)
+                    where = [i for i, (x, y) in enumerate(zip(s0, s1)) if x != y]
+                    part = ['wea(dni, dhi, metadata, timestep, leap, location)', 'enforce_on_hour', 'datetimes',
+                            'global_horizontal_irradiance', 'direct_horizontal_irradiance'] \
+                        if _kind(o) == 'wea' else (SNAP_NAMES if _kind(o) == 'coll' else ['f6', 'f12', 'is_ip', 'metadata'])
+                    return {'required': '%s %d unchanged after %s on %s %d (%s) following %s' % (
+                                oside, oi, m, side, idx, outcome, name),
+                            'observed': 'changed: %s' % ','.join(part[i] for i in where if i < len(part)),
+                            'sig': dict(sig, side=side, mutator=m)}
+            if side == 'result':
+                try:
+                    res2 = _comp_derive(w, name)
+                except Exception as e:
+                    return {'required': '%s answers again after %s on its first result' % (name, m),
+                            'observed': type(e).__name__, 'sig': dict(sig, side='again-raises', mutator=m)}
+                for k2, r2 in enumerate(res2):
+                    if any(r2 is r1 for r1 in res):
+                        return {'required': '%s asked again returns a new object' % name,
+                                'observed': 'the object handed out before', 'sig': dict(sig, side='again-same-object')}
+                    if k2 < len(birth) and _comp_snap(r2, views) != birth[k2]:
+                        return {'required': '%s asked again (source untouched, first result edited by %s: %s) answers '
+                                            'as the first time' % (name, m, outcome),
+                                'observed': 'answer %d differs' % k2, 'sig': dict(sig, side='again-differs', mutator=m)}
+    return None
+
+
+def _composite_cases(ctx):
+    """Round 5: Wea source form x past x deriving call (every filter, duplicate / copy, the computed
+    collections, the dictionary round trip) x edit x side; EPW x sky_temperature."""
+    rng = ctx.rng
+    small = ctx.quick and not ctx.searching
+    for src in COMP_SOURCES:
+        pasts = [COMP_PASTS[1]] + rng.sample(COMP_PASTS, 1 if small else (2 if ctx.quick else 4))
+        for past in pasts:
+            derives = COMP_DERIVES + ['filter_ap_window']
+            if small:
+                derives = rng.sample(derives, 5)
+            for d in derives:
+                case = {'src': src, 'past': list(past), 'derive': d}
+                if small:
+                    case['mutators'] = ['meta_key', 'meta_nested'] + rng.sample(COMP_MUTATORS, 3) + \
+                        rng.sample(COLL_MUTATORS, 2)
+                    case['mutators'] = sorted(set(case['mutators']))
+                elif not ctx.searching:
+                    case['mutators'] = sorted(set(['meta_key', 'meta_nested', 'meta_new_key', 'meta_replace']
+                                                  + rng.sample(COMP_MUTATORS, 5) + rng.sample(COLL_MUTATORS, 3)))
+                if 'k2' not in json.dumps(past) and 'meta' not in past:
+                    case['mutators'] = [m for m in (case.get('mutators') or COMP_MUTATORS + COLL_MUTATORS)
+                                        if m != 'meta_nested'] + ['meta_update']
+                ctx.count('r5:composite:%s/%s' % (src, d))
+                ctx.count('r5:composite-past:' + '+'.join(past or ['none']))
+                yield 'composite', case
+    deep = sky_temperature_deep()
+    for past in ([], ['ip']):
+        ctx.count('r5:composite:epw/sky_temperature')
+        # (until fixes/C14_epw_sky_temperature_deepcopy.patch is committed the nested-list edits are asked by
+        # the corpus case of the known finding only)
+        yield 'composite', {'src': 'epw', 'past': past, 'derive': 'sky_temperature',
+                            'mutators': ['meta_key', 'meta_new_key', 'member0:set_item', 'meta_set', 'set_item',
+                                         'conv_ip'] + (['meta_nested', 'meta_append'] if deep else []),
+                            'views': False}
+
+
 def check_case(op, inp):
+    if op == 'composite':
+        return check_composite(inp)
     if op == 'shape':
         return check_shape(inp)
     if op == 'returned':
@@ -3006,6 +3479,115 @@ def _r4_cases(ctx):
     yield 'misc', {'what': 'epw_dict_round_trip'}
 
 
+# --- round 5: operands that are NOT alike (class "an operation generalised to a wider class of operand pairs")
+
+FAMILY_UNITS = {'Temperature': ['C', 'F', 'K'], 'Energy': ['kWh', 'kBtu', 'Wh', 'MJ'], 'Power': ['W', 'kW', 'Btu/h'],
+                'EnergyIntensity': ['kWh/m2', 'kBtu/ft2', 'Wh/m2'], 'EnergyFlux': ['W/m2', 'kW/m2', 'Btu/h-ft2']}
+HETERO_VARIANTS = ['unit', 'unit2', 'unit+imm', 'unit+mut', 'dtype', 'mutability', 'meta', 'class', 'period', 'length']
+PAIR_OPS = ['add', 'sub', 'mul', 'div', 'cfa', 'queries', 'statement_filter_many', 'windrose', 'wea_init']
+
+
+def _hetero_sibling(rng, spec, variant):
+    """A second operand that differs from `spec` in ONE respect (same class and length unless the variant
+    says otherwise): another unit of the same data type, another data type, the other mutability, other
+    metadata, another collection class, another period, another length.  Plain numbers only."""
+    sib = _twin(spec, vals=[(int(abs(v)) % 7) + 1 for v in spec['vals']], meta={'k2': [5], 'k1': 'sib'})
+    sib.pop('pre', None)
+    dt = spec.get('dtype', 'Temperature')
+    fam = [u for u in FAMILY_UNITS[dt] if u != spec['unit']]
+    if variant in ('unit', 'unit2', 'unit+imm', 'unit+mut'):
+        sib['unit'] = fam[0] if variant != 'unit2' else fam[-1]
+        if variant == 'unit+imm':
+            sib['mutable'] = False
+        elif variant == 'unit+mut':
+            sib['mutable'] = True
+        else:
+            sib['mutable'] = rng.random() < 0.7
+    elif variant == 'dtype':
+        other = rng.choice([d for d in FAMILY_UNITS if d != dt])
+        sib.update(dtype=other, unit=rng.choice(FAMILY_UNITS[other]))
+    elif variant == 'mutability':
+        sib['mutable'] = not spec['mutable']
+    elif variant == 'meta':
+        sib['meta'] = rng.choice([{}, {'k1': 1, 'k2': [1, 2]}, {'type': 'Zone', 'k3': ['x']}])
+    elif variant == 'class':
+        if spec['cls'] in ('hc', 'hd'):
+            sib['cls'] = 'hd' if spec['cls'] == 'hc' else 'hc'
+            if sib['cls'] == 'hc':      # a whole day that holds the datetimes of the discontinuous one
+                d = spec['dts'][0] // 1440
+                ts = spec['ap'][6]
+                sib.update(ap=[spec['ap'][0], spec['ap'][1], 0, spec['ap'][0], spec['ap'][1], 23, ts, spec['ap'][7]],
+                           dts=[d * 1440 + h * 60 + k * (60 // ts) for h in range(24) for k in range(ts)])
+                sib['vals'] = [(i % 7) + 1 for i in range(len(sib['dts']))]
+        else:
+            sib.update(copy.deepcopy(ODD_SPECS['d' if spec['cls'] == 'monthly' else 'm']))
+            sib.update(mutable=spec['mutable'], unit=spec['unit'])
+            if dt != 'Temperature':
+                sib['dtype'] = dt
+    elif variant == 'period':
+        ap = list(spec['ap'])
+        if spec['cls'] in ('hc', 'hd') and ap[0] == ap[3] and ap[4] < 27:
+            ap[1] += 1
+            ap[4] += 1
+            sib.update(ap=ap, dts=[t + 1440 for t in spec['dts']])
+        else:
+            ap[7] = 1 - ap[7] if spec['cls'] not in ('hc', 'hd') else ap[7]
+            sib['ap'] = ap
+    elif variant == 'length' and spec['cls'] != 'hc' and len(spec['dts']) > 1:
+        sib.update(dts=spec['dts'][:-1], vals=sib['vals'][:-1])
+    return sib
+
+
+def _hetero_cases(ctx):
+    """Round 5: every operation that takes TWO collections (arithmetic - base and continuous override -,
+    compute_function_aligned, the alignment queries, filter_collections_by_statement, WindRose, the Wea
+    constructor) on pairs that are not alike: units of one data type (C / F / K, kWh / kBtu ..), data
+    types, mutability, metadata, class, period, length; each operand on either side of the operator.  The call
+    may answer or refuse: both operands read as before; then the usual edits on either side."""
+    rng = ctx.rng
+    small = ctx.quick and not ctx.searching
+    for cls in ('hc', 'hd', 'daily', 'monthly', 'mph'):
+        for mutable in (True, False):
+            for dtype in (('Temperature',) if small and rng.random() < 0.6 else ('Temperature', rng.choice(
+                    ['Energy', 'Power', 'EnergyIntensity', 'EnergyFlux']))):
+                base = gen_spec(rng, cls, mutable, hourly_days=1, energy=False)
+                base['meta'] = {'k1': 1, 'k2': [1, 2]}
+                if dtype != 'Temperature':
+                    base.update(dtype=dtype, unit=rng.choice(FAMILY_UNITS[dtype]),
+                                vals=[abs(v) + 1 for v in base['vals']])
+                else:
+                    base['unit'] = rng.choice(['C', 'F', 'K'])
+                for variant in HETERO_VARIANTS:
+                    unitv = variant.startswith('unit')
+                    ops = [o for o in PAIR_OPS if cls in ('hc', 'hd') or o not in ('windrose', 'wea_init')]
+                    if small:
+                        ops = (['add', 'sub'] if unitv else []) + rng.sample(ops, 2 if unitv else 1)
+                    elif ctx.quick and not unitv:
+                        ops = rng.sample(ops, 4)
+                    for op in dict.fromkeys(ops):
+                        sib = _hetero_sibling(rng, base, variant)
+                        on = rng.choice([0, 0, 1])
+                        args = {'c': 1 - on}
+                        if op == 'cfa':
+                            args['u'] = rng.choice([0, 1])
+                        elif op in ('windrose', 'statement_filter_many'):
+                            args = {'j': 1 - on, 'n': 4, 'gt': -5}
+                        case = {'build': [copy.deepcopy(base), sib], 'derive': {'on': on, 'op': op, 'args': args}}
+                        if op in ('queries', 'wea_init'):
+                            case['mutators'] = []
+                        elif not ctx.searching:
+                            case['mutators'] = sorted(set([0, 7] + rng.sample(range(N_PLAIN_MUTATORS), 2)))
+                        ctx.count('r5:pair:%s/%s' % (variant, op))
+                        ctx.count('r5:pair-left:%s' % ('first' if on == 0 else 'second'))
+                        yield 'derive', case
+            # statistics / reports of one collection: nothing changes
+            for kind in (['plain'] + rng.sample(RARE_KINDS, 1 if small else 3)):
+                spec = gen_spec(rng, cls, mutable, hourly_days=1) if kind == 'plain' else \
+                    _rare_spec(rng, cls, mutable, kind)
+                ctx.count('r5:stats')
+                yield 'derive', {'build': [spec], 'derive': {'on': 0, 'op': 'stats', 'args': {}}, 'mutators': []}
+
+
 SWEEP_OPS = [o for o in DERIVE_OPS if o != 'cfa_ref'] + ['copy', 'hourlyplot', 'monthlychart',
                                                          'statement_filter_many', 'from_dict']
 
@@ -3128,6 +3710,17 @@ FIXED_CORPUS = [
     ('returned', {'spec': _HC24, 'get': 'to_dict'}),
     ('returned', {'obj': 'epw', 'get': 'to_dict'}),
     ('misc', {'what': 'epw_dict_round_trip'}),
+    # round 5: a list stored as an EPW metadata value and sky_temperature (known finding until the repair is committed)
+    ('composite', {'src': 'epw', 'past': [], 'derive': 'sky_temperature', 'mutators': ['meta_nested'], 'views': False}),
+    # a + b with b in another unit of the same data type: both operands read as before
+    ('derive', {'build': [_HC24, _twin(_HC24, meta={}, unit='F')], 'derive': {'on': 0, 'op': 'add', 'args': {'c': 1}},
+                'mutators': [0, 5, 7]}),
+    ('derive', {'build': [_twin(_HC24, cls='daily', ap=[1, 1, 0, 1, 3, 23, 1, 0], dts=[1, 2, 3], vals=[1, 2, 3], unit='K'),
+                          _twin(_HC24, cls='daily', ap=[1, 1, 0, 1, 3, 23, 1, 0], dts=[1, 2, 3], vals=[4, 5, 6], meta={})],
+                'derive': {'on': 0, 'op': 'sub', 'args': {'c': 1}}, 'mutators': [0, 5, 7]}),
+    # a filtered Wea and its source: metadata edits of either do not show in the other
+    ('composite', {'src': 'dict', 'past': ['meta'], 'derive': 'filter_ap',
+                   'mutators': ['meta_key', 'meta_nested', 'meta_new_key', 'meta_set']}),
 ]
 
 
@@ -3162,27 +3755,48 @@ def _misc_cases(ctx):
 
 
 def _oracle_cases(ctx):
+    """The oracle stream; once a broken tie has led to a good number of failing inputs the rest of the
+    (five times larger) search is not needed."""
+    for c in _oracle_cases_all(ctx):
+        if ctx.searching and len(ctx.failures) >= 30:
+            ctx.count('oracle:stopped-early-after-30-failures')
+            return
+        yield c
+
+
+def _oracle_cases_all(ctx):
     rng = ctx.rng
-    for c in FIXED_CORPUS:
-        yield c
-    for c in _sweep_cases(ctx):
-        yield c
-    for c in _r4_cases(ctx):
-        yield c
-    for c in _misc_cases(ctx):
-        yield c
-    for k in range(ctx.n(5, 40) * (2 if ctx.searching else 1)):
-        ctx.count('epw_oracle_histories')
-        yield 'history', epw_oracle_history(rng, ip_first=k % 2 == 0)
-    if os.path.exists(_epw_path()):
-        for w, ip in (EPW_MISC if not ctx.quick or ctx.searching else [EPW_MISC[3], EPW_MISC[6]]):
-            yield 'misc', {'what': w, 'ip': ip}
-    n = 300 if ctx.quick else 6000
+
+    def epw_block():
+        for k in range(ctx.n(3, 20) * (2 if ctx.searching else 1)):
+            ctx.count('epw_oracle_histories')
+            yield 'history', epw_oracle_history(rng, ip_first=k % 2 == 0)
+        if os.path.exists(_epw_path()):
+            for w, ip in (EPW_MISC if not ctx.quick or ctx.searching else [EPW_MISC[3], EPW_MISC[6]]):
+                yield 'misc', {'what': w, 'ip': ip}
+
+    def history_block():
+        n = 300 if ctx.quick else 4500
+        if ctx.searching:
+            n *= 3
+        for _ in range(n // 3):                  # round 5: histories around Wea objects
+            _, _, h = run_history(rng, None, wea_focus=True, modelled=False)
+            ctx.count('oracle_histories:wea-centred')
+            yield 'history', h
+        for _ in range(n):
+            _, _, h = run_history(rng, None)
+            yield 'history', h
+
+    blocks = [lambda: iter(FIXED_CORPUS), lambda: _sweep_cases(ctx), lambda: _r4_cases(ctx),
+              lambda: _hetero_cases(ctx), lambda: _composite_cases(ctx), lambda: _misc_cases(ctx), epw_block,
+              history_block]
     if ctx.searching:
-        n *= 3
-    for _ in range(n):
-        _, _, h = run_history(rng, None)
-        yield 'history', h
+        # a tie is broken: the cheap broad blocks first (pairs, composites, single calls, histories), the large
+        # sweeps after them (the stream stops once it has led to 30 failing inputs)
+        blocks = [blocks[0], blocks[3], blocks[4], blocks[5], blocks[7], blocks[1], blocks[2], blocks[6]]
+    for b in blocks:
+        for c in b():
+            yield c
 
 
 # --- process-order independence: the same cases in fresh interpreters, in different orders
@@ -3404,7 +4018,15 @@ LEVEL_TEXT = ('Machine-checked Lean 4 theorems over an executable heap model (He
               'of its source (C14_derive_new_object), both branches of validate_analysis_period copy '
               '(C14_validate_branches), constructors / get_aligned_collection / values setter do not depend on '
               'the container type of a sequence argument (C14_*_container_independent); on the real objects: '
-              'sources with a past, container types, returned containers, text-made and reversed periods.')
+              'sources with a past, container types, returned containers, text-made and reversed periods. '
+              'Round 5: arithmetic leaves its second operand as it is whatever the units of the two are and its '
+              'result does not look at the second operand\'s header (C14_arith_operand_kept, '
+              'C14_arith_ignores_operand_header); a new Wea (from_dict, duplicate, every filter) and the Wea it '
+              'came from do not see each other\'s metadata edits (C14_fresh_comp_metadata_edit, '
+              'C14_source_metadata_edit_after_fresh, C14_wea_filter_metadata_separate, '
+              'C14_wea_duplicate_metadata_separate); on the real objects: operand pairs that are not alike for '
+              'every two-collection call, composite derive x settings-edit x side sweeps, Wea-centred histories; '
+              'the history oracle, which had skipped every step since round 2, is executed.')
 LEVEL_NOTE = ('Trusted: Lean kernel; axioms propext/Classical.choice/Quot.sound only; the hand model of which cells '
               'each operation allocates/aliases (agreement on generated histories only); payload values of '
               'aggregation/validation/interpolation/Wea-derived collections; two of the 35 EPW fields modelled; '
